@@ -243,6 +243,10 @@ def run_code_with_cache(
     """
     use_cache = should_use_cache(execer, mode)
     filename = code_cache_name(code)
+    if mode != "exec":
+        # the compile mode is part of what the entry means: "single" code
+        # echoes expression values, "exec" code does not
+        filename += "-" + mode
     cachefname = get_cache_filename(filename, code=True)
     run_cached = False
     if use_cache:
